@@ -59,16 +59,6 @@ struct State
     std::map<Endpoint, Decoder> solo;
 };
 
-void logPending(Out& o, const char* key, const Decoder& dec)
-{
-    o.arr(key);
-    for (const auto& p : dec.verifPending())
-    {
-        o.obj().kv("dev", p.deviceId).kv("st", p.streamId).kv("seg", p.segmentType >> 2).kv("ver", p.version);
-        o.kv("mt", p.messageType).kv("cur", p.lastCounter).bytes("buf", p.buffer).end();
-    }
-    o.endArr();
-}
 
 std::string snapAll(const std::vector<std::shared_ptr<Packet>>& pkts)
 {
